@@ -68,6 +68,9 @@ Section Spec.
     forall n ia v, In (n, (ia, v)) (m_par m) -> ia = false.
   Definition EveryVariableHasReaction (m : cmodel V) : Prop :=
     forall x, In x (m_var m) -> stoich_terms m x <> [].
+  (** some reaction acts on something: diff_eqs is not empty *)
+  Definition HasEquation (m : cmodel V) : Prop :=
+    exists n f a st x c, In (n, (f, a, st)) (m_rxn m) /\ In (x, c) st.
   (** stoichiometries act on variables; computed coefficients read known names *)
   Definition known_names (m : cmodel V) : list name :=
     tname :: map fst (m_par m) ++ m_var m ++ map fst (m_der m) ++ map fst (m_rxn m).
